@@ -8,6 +8,7 @@ import MpirProofs.Props.C01_fftring
 import MpirProofs.Props.C08_limb
 import MpirProofs.Lemmas.PowmReal
 import MpirProofs.Lemmas.NextSize
+import MpirProofs.Lemmas.PowmCrtMem
 import Mpir.Ops.Hgcd
 namespace Mpir.Mm1
 open Mpir Mpir.Fft
@@ -316,5 +317,32 @@ theorem mpz_powm_scratch_ok_even (thr mthr : Nat) (pp1 : P1) (hpp1 : P1Spec pp1)
 example : (mpnPowmMemR 1 12 Fft.mulmod_2expp1_basecase (Mpir.Hgcd.bnm1NextSize 128 19 tab19) binvItchP
     (2 * 5 + max (binvItchP (max 3 2)) (2 * 5)) [3, 4, 5] [77] [7, 9]) = (toLimbs 2 (val [3, 4, 5] ^ 77 % val [7, 9]), true) := by
   decide +kernel
+
+/-- **The CRT path of mpz_powm, scratch indices** (mpz/powm.c:176-268, even modulus): with the single block of
+    `itch = 3n + MAX (mpn_binvert_itch (MAX (ncnt, nodd)), 2n)` limbs, `rp = tp; tp += n`, every callee stays inside the
+    block and never overlaps an operand it still needs: mpn_powlo (`r2 = tp[0..ncnt)`, scratch `tp[ncnt..4·ncnt)`),
+    mpn_binvert (`tp[n..n+ncnt)`, scratch `tp[2n..2n + mpn_binvert_itch (ncnt))` — inside by the monotonicity of
+    mpn_mulmod_bnm1_next_size), mpn_sub in place, mpn_mullow_n (the `2·ncnt` limbs it sets at `tp + 2n`), mpn_mul into
+    `tp[0..nodd+ncnt)` apart from `xp`, and mpn_add reading `yp[0..n)`.  For every modulus in normal form.
+    This is a statement about index ranges (model `PowmCrt.crtOk`); the values are those of `powmEven`
+    (`powmEven_correct`), the mpn_powm call inside the same block is `mpz_powm_scratch_ok_even`. -/
+theorem mpz_powm_crt_indices_ok (mp : List Nat) (hm : Norm mp) (hne : mp ≠ []) :
+    Mpir.PowmCrt.mpzPowmCrtOk mp binvItchP = true := by
+  obtain ⟨_, _, s3, _, _, s6, s7, s8, _, _⟩ := stripM_spec mp hm hne
+  unfold Mpir.PowmCrt.mpzPowmCrtOk
+  simp only at s3 s6 s7 s8 ⊢
+  by_cases h0 : (stripM mp).2.2.1 = 0
+  · rw [if_pos h0]
+  · rw [if_neg h0]
+    refine Mpir.PowmCrt.crtOk_true _ _ _ binvItchP ?_ s3 (by omega) s6 s8 s7
+    intro a b hab
+    have := bnm1NextSize_mono a b hab
+    unfold binvItchP; omega
+
+-- non-vacuity: the flags are not constant (one limb less than the C allocates breaks mpn_binvert's scratch), and a concrete
+-- even modulus 2^70·(2^130 + 1)
+example : Mpir.PowmCrt.crtOk 5 3 3 (2 * 5 + max (binvItchP 3) (2 * 5)) binvItchP = true ∧
+    Mpir.PowmCrt.crtOk 5 3 3 (2 * 5 + max (binvItchP 3) (2 * 5) - 1) binvItchP = false ∧
+    Mpir.PowmCrt.mpzPowmCrtOk [0, 64, 0, 256] binvItchP = true := by decide +kernel
 
 end Mpir.Mm1
